@@ -18,6 +18,12 @@ Theorem C18_attr : forall k v tail,
 Proof. exact (fun k v tail => conj (convert_denote k v tail) (convert_skip k v)). Qed.
 Print Assumptions C18_attr.
 
+(* the model converts a LogValuer layer by layer; the code calls Value.Resolve() (all layers
+   at once) and converts the result: the same function *)
+Theorem C18_logvaluer_resolved : forall k v, convert k (VLogValuer v) = convert k (resolve v).
+Proof. exact convert_resolve. Qed.
+Print Assumptions C18_logvaluer_resolved.
+
 (* for every derivation sequence (WithGroup/WithAttrs in any order, any length), every core
    enabler, every slog level, message and record: Enabled and the emitted entry (mapped
    level, message, logger name, attribute tree) are what the contract specifies *)
